@@ -213,8 +213,39 @@ func opHistory(g *G) (interface{}, []uint64, int, interface{}) {
 	regBefore := dumpReg(pop)
 	rand.Seed(g.seed63())
 	out := make([]JHistStep, 0, steps)
+	// scripted re-split sequences (seeded C01-K): X splits a link; a single-point child of X takes over part of the split
+	// (the split link comes in disabled); the child's link is re-enabled; the child splits while X's record is still listed
+	type forcedStep struct {
+		op        string
+		a, b, dst int
+	}
+	scripted := len(members) >= 3 && g.chance(0.3)
+	if scripted {
+		family += "+resplit"
+		if steps < 24 {
+			steps = 24 + g.intn(60)
+		}
+	}
+	var queue []forcedStep
 	for s := 0; s < steps; s++ {
 		a := g.intn(len(members))
+		var f *forcedStep
+		if scripted && len(queue) == 0 && g.chance(0.8) {
+			x, y, c := g.intn(len(members)), g.intn(len(members)), g.intn(len(members))
+			if x != c && y != c {
+				pa, pb := x, y
+				if g.chance(0.5) {
+					pa, pb = y, x
+				}
+				queue = []forcedStep{{"mutAddNode", x, -1, x}, {"mateSinglePoint", pa, pb, c}, {"mutGeneReEnable", c, -1, c},
+					{"mutGeneReEnable", c, -1, c}, {"mutAddNode", c, -1, c}, {"mutAddNode", c, -1, c}}
+			}
+		}
+		if len(queue) > 0 {
+			f = &queue[0]
+			queue = queue[1:]
+			a = f.a
+		}
 		m := members[a]
 		st := JHistStep{A: a, B: -1, Dst: -1, Intact: true}
 		var produced *genetics.Genome
@@ -238,7 +269,7 @@ func opHistory(g *G) (interface{}, []uint64, int, interface{}) {
 			st.Dst = a
 			st.G = dumpGenome(m)
 			produced = m
-		case c < 13:
+		case f == nil && c < 13:
 			st.Op = "duplicate"
 			before := dumpGenome(m)
 			var d *genetics.Genome
@@ -262,12 +293,18 @@ func opHistory(g *G) (interface{}, []uint64, int, interface{}) {
 			st.Dst = a
 		default:
 			b := g.intn(len(members))
+			if f != nil {
+				b = f.b
+			}
 			o := members[b]
 			st.B = b
 			f1, f2 := float64(g.intn(3)), float64(g.intn(3))
 			beforeA, beforeB := dumpGenome(m), dumpGenome(o)
 			var child *genetics.Genome
 			method := g.intn(3)
+			if f != nil {
+				method = 2
+			}
 			st.Op = []string{"mateMultipoint", "mateMultipointAvg", "mateSinglePoint"}[method]
 			func() {
 				defer func() { pan = recover() }()
@@ -288,6 +325,9 @@ func opHistory(g *G) (interface{}, []uint64, int, interface{}) {
 				if len(child.Genes) > 0 {
 					// (a gene-less child - known finding K1 - is dumped but not bred from: every operator rejects it)
 					st.Dst = g.intn(len(members))
+					if f != nil {
+						st.Dst = f.dst
+					}
 					members[st.Dst] = child
 				}
 			}
@@ -353,6 +393,12 @@ func opGenesisOk(g *G) (interface{}, []uint64, int, interface{}) {
 	case 1:
 		src.Genes = nil
 		mal = "noGenes"
+	case 3, 4:
+		// every connection gene disabled: still a sound genome that must be expressible (seeded C01-L)
+		for _, gn := range src.Genes {
+			gn.IsEnabled = false
+		}
+		family += "+allDisabled"
 	case 2:
 		kept := src.Nodes[:0]
 		for _, n := range src.Nodes {
